@@ -675,12 +675,16 @@ func runNFT(run *ev.Run, c int) {
 	r.Snapshot = func(ctx sdk.Context) any { return w.snapshot(ctx) }
 	blocks := tierN(run.Tier, 200, 450)
 	for b := 0; b < blocks; b++ {
+		restartFromOwnExport(run, r, c, b, blocks)
 		br := r.DeliverBlock(time.Second, w.Next(b))
 		if br.FinalErr != nil {
 			run.Inconc("FinalizeBlock failed: %v", br.FinalErr)
 			return
 		}
 		w.Observe(br)
+	}
+	if c%4 == 1 {
+		run.Require("restarted-from-own-export", 1)
 	}
 	for _, n := range []string{"nft-mint-ok", "nft-transfer-ok", "nft-edit-ok", "nft-burn-ok", "nft-transfer-class-ok", "hostile-transfer-rejected", "hostile-edit-rejected", "hostile-burn-rejected", "hostile-mint-rejected", "hostile-handover-rejected"} {
 		run.Require(n, 1)
